@@ -219,8 +219,12 @@ func (r *Run) Finish() int {
 		evd["harness_errors"] = r.harnessErr
 	}
 	b, _ := json.MarshalIndent(evd, "", " ")
-	os.MkdirAll(filepath.Join(Root, "evidence"), 0o755)
-	if err := os.WriteFile(filepath.Join(Root, "evidence", r.Prop+".json"), b, 0o644); err != nil {
+	evDir := filepath.Join(Root, "evidence")
+	if d := os.Getenv("VERIF_EVIDENCE_DIR"); d != "" {
+		evDir = d // background sweeps write elsewhere; registered commands never set this
+	}
+	os.MkdirAll(evDir, 0o755)
+	if err := os.WriteFile(filepath.Join(evDir, r.Prop+".json"), b, 0o644); err != nil {
 		fmt.Println("HARNESS-ERROR cannot write evidence:", err)
 		return 2
 	}
